@@ -44,7 +44,7 @@ func init() {
 }
 
 func floorsC19() map[string]int64 {
-	return map[string]int64{"query.connected": 5000, "query.disconnected": 200, "query.same_node": 100, "query.optimal_differs_from_fewest_links": 200, "minimise.Distance": 300, "minimise.Time": 300, "topology.detour": 100, "topology.two_components": 100, "topology.grid": 100, "topology.tree": 100, "topology.near_tie_lattice": 100, "query.on_node": 1000, "order.fastest_first": 100, "speeds.all_equal_below_1": 50, "query.nearly_equal_points_across_a_bisector": 500, "order.incremental_queries_between_addlinks": 300, "incremental.link_between_existing_nodes_after_query": 300}
+	return map[string]int64{"query.connected": 5000, "query.disconnected": 200, "query.same_node": 100, "query.optimal_differs_from_fewest_links": 200, "minimise.Distance": 300, "minimise.Time": 300, "topology.detour": 100, "topology.two_components": 100, "topology.grid": 100, "topology.tree": 100, "topology.near_tie_lattice": 100, "net.cell_beyond_1e155": 50, "query.on_node": 1000, "order.fastest_first": 100, "speeds.all_equal_below_1": 50, "query.nearly_equal_points_across_a_bisector": 500, "order.incremental_queries_between_addlinks": 300, "incremental.link_between_existing_nodes_after_query": 300}
 }
 
 type link struct {
@@ -147,6 +147,11 @@ func genNetwork(c *core.Ctx, r *gen.R) (*netw, string) {
 	n := &netw{adj: map[int][]int{}}
 	topo := []string{"grid", "grid", "tree", "two_components", "detour", "detour", "fastfar", "near_tie_lattice"}[r.Intn(8)]
 	cell := math.Pow(10, r.Range(0, 4))
+	if r.Chance(0.06) {
+		// so large that the square of a coordinate difference overflows (lengths and costs do not)
+		cell = math.Pow(10, r.Range(155, 290))
+		c.Count("net.cell_beyond_1e155")
+	}
 	ox, oy := cell*r.Range(5, 50), cell*r.Range(5, 50) // positive coordinates
 	maxSide := 8
 	if c.Thorough() && r.Chance(0.1) {
